@@ -167,7 +167,7 @@ def gen_op(rng, st):
         for i in range(len(c['pool'])):
             if rng.random() < 0.7:
                 st.prologue.append({'op': 'open', 'pool': i, 'sid': _sid(st),
-                                    'how': rng.choice(['auto', 'explicit'])})
+                                    'how': rng.choice(['auto', 'explicit', 'explicit', 'dataset'])})
     if st.prologue:
         return st.prologue.pop(0)
     if st.nsteps >= c['steps']:
@@ -182,7 +182,7 @@ def gen_op(rng, st):
             if not st.pool:
                 return {'op': 'clock_jump', 'seconds': 1}
             return {'op': 'open', 'pool': rng.choice(sorted(st.pool)),
-                    'sid': _sid(st), 'how': rng.choice(['auto', 'explicit'])}
+                    'sid': _sid(st), 'how': rng.choice(['auto', 'explicit', 'explicit', 'dataset'])}
         if name == 'close':
             cands = [s for s in st.slots.values()
                      if s.life in ('open', 'closed') and s.kind != 'mem']
@@ -208,6 +208,10 @@ def gen_op(rng, st):
     name = _pick(rng, c['weights'])
     if name is None:
         name = 'copy'
+    if s.kind == 'ncraw':
+        # a bare netCDF4.Dataset has none of the library's methods; the library
+        # touches it through pncwrite / pncgen (and through the lifecycle)
+        name = 'save'
     if name == 'write':
         cands = [x for x in live if x.writable]
         if not cands:
@@ -777,8 +781,13 @@ def _do_query(st, s, op):
                 ns.model = None
                 return 'saved-camx->slot%d' % ns.id
             return 'saved-camx'
-        h = f.save(path, format=op['fmt'], complevel=op.get('complevel', 0),
-                   verbose=0)
+        if s.kind == 'ncraw':
+            import PseudoNetCDF as pnc
+            h = pnc.pncwrite(f, path, format=op['fmt'] if op['fmt'] != 'uamiv' else 'NETCDF4',
+                             complevel=op.get('complevel', 0), verbose=0)
+        else:
+            h = f.save(path, format=op['fmt'], complevel=op.get('complevel', 0),
+                       verbose=0)
         st.pool[op['pid']] = {'kind': 'saved', 'path': path, 'sha': None}
         if h is not None and hasattr(h, 'variables'):
             ns = _new_slot(st, op['sid'], h, 'saved', path=path, src=[s.id], via='save')
@@ -796,6 +805,12 @@ def _open(st, op):
     kind = p['kind']
     fmt = {'nc3': 'netcdf', 'nc4': 'netcdf', 'nc4c': 'netcdf', 'saved': 'netcdf',
            'ioapi_nc': 'ioapi', 'uamiv': 'uamiv'}[kind]
+    if op['how'] == 'dataset' and fmt in ('netcdf', 'ioapi'):
+        # the plain netCDF4 reader: pncopen hands out a bare netCDF4.Dataset
+        f = pnc.pncopen(p['path'], format='Dataset')
+        s = _new_slot(st, op['sid'], f, 'ncraw', path=p['path'], via='open')
+        s.writable = False
+        return s, 'ok'
     if op['how'] == 'explicit':
         f = pnc.pncopen(p['path'], format=fmt)
     else:
@@ -964,7 +979,7 @@ def apply(st, op):
         s = st.slots.get(op['slot'])
         if s is None or s.life == 'dropped':
             obs['note'] = 'noop'
-        elif s.kind == 'saved' and s.life == 'closed':
+        elif s.kind in ('saved', 'ncraw') and s.life == 'closed':
             # save() returns a plain netCDF4.Dataset; closing *that* twice is
             # netCDF4-python's own (unguarded) nc_close, not library code
             obs['note'] = 'noop-raw-handle-already-closed'
